@@ -38,6 +38,7 @@ fn main() {
 		"check" => check(&args[2], args.get(3).map(|s| s.as_str()).unwrap_or("quick")),
 		"shard" => shard(&args[2], &args[3], args[4].parse().unwrap(), args[5].parse().unwrap(), Path::new(&args[6])),
 		"replay" => replay(&args[2], Path::new(&args[3])),
+		"lock-child" => pdbv::props::c18::child_main(&args[2]),
 		_ => {
 			eprintln!("unknown command");
 			2
